@@ -302,6 +302,21 @@ def _search_wasm_hotswap(here, out):
     return None, (p.stdout.strip()[-300:] + p.stderr.strip()[-300:])
 
 
+def _search_macro_result(here, out):
+    """a dynamically loaded macro's result on its whole way back into the program (loader wrapper + interpreter_value_to_raw)"""
+    exe, err = _build("ffi_serde", here, out)
+    if exe is None:
+        return None, "replay harness does not build against the current tree: " + err[-400:]
+    try:
+        p = subprocess.run([exe, "macro-result"], capture_output=True, text=True, timeout=600)
+    except subprocess.TimeoutExpired:
+        return None, "replay search timeout"
+    m = re.search(r"FOUND index=(\d+) value=(.*?) clause=(.*)", p.stdout)
+    if m:
+        return {"cmd": ["ffi_replay", "macro-result", m.group(1)], "value": m.group(2), "clause": m.group(3)}, ""
+    return None, (p.stdout.strip()[-300:] + p.stderr.strip()[-300:])
+
+
 def _search_let_release(here, out):
     """programs of the repaired let-scope findings (F16: aliased variable, F17: partial record pattern); F15 is a listed
     known finding and is replayed by the known-findings loop, not here"""
@@ -348,7 +363,7 @@ def _search_exchange(here, out):
     return None, p.stdout.strip()[-200:]
 
 
-SEARCHERS = {"wasm_hotswap": _search_wasm_hotswap, "wasm_alloc": _search_wasm_alloc, "loader_seq": _search_loader_seq, "shadow": _search_shadow, "drop_shared": _search_drop_shared, "let_release": _search_let_release, "exchange": _search_exchange, "type_serde": _search_type_serde, "state_tree": lambda here, out: _search_state_tree(here, out, 4), "ffi_serde": _search_ffi, "parser": _search_parser, "privacy": _search_privacy, "sched": _search_sched, "boxed": _search_boxed, "cst": _search_cst, "layout": _search_layout, "schedvm": _search_schedvm}
+SEARCHERS = {"macro_result": _search_macro_result, "wasm_hotswap": _search_wasm_hotswap, "wasm_alloc": _search_wasm_alloc, "loader_seq": _search_loader_seq, "shadow": _search_shadow, "drop_shared": _search_drop_shared, "let_release": _search_let_release, "exchange": _search_exchange, "type_serde": _search_type_serde, "state_tree": lambda here, out: _search_state_tree(here, out, 4), "ffi_serde": _search_ffi, "parser": _search_parser, "privacy": _search_privacy, "sched": _search_sched, "boxed": _search_boxed, "cst": _search_cst, "layout": _search_layout, "schedvm": _search_schedvm}
 TOOLS = {"st_replay": "state_tree", "ffi_replay": "ffi_serde", "parser_replay": "parser"}
 
 
